@@ -207,4 +207,22 @@ let run_ws inp obs : string option * string option =
   | _ -> (Some "unparsable C06W case", None)
 
 let run inp obs = match inp with "C06W" :: _ -> run_ws inp obs | _ -> run_c06 inp obs
-let () = Evalreg.register "C06" run
+
+(* C06Z: an HTTP client stream whose gzip body is damaged after the last complete message *)
+let run_z inp obs : string option * string option =
+  match inp, obs with
+  | _, ["panic"] -> (Some "the server panicked", None)
+  | ["C06Z"; codec; damage; n], [texts; hend; status] ->
+    let n = int_of_string n in
+    let want = Stdlib.List.init n (fun i -> Printf.sprintf "message-%d-%s" i (String.make (i * 7) 'x')) in
+    let got = if texts = "-" then [] else Stdlib.List.map (fun h -> bytes_str (bytes_of_hex h)) (split_on ',' texts) in
+    let rec is_prefix a b = match a, b with [], _ -> true | x :: a', y :: b' -> x = y && is_prefix a' b' | _ -> false in
+    let what = Printf.sprintf "HTTP client stream, Content-Encoding gzip (%s, damage %s): the handler received %d of %d messages, the stream ended with %s, HTTP %s" codec damage (Stdlib.List.length got) n hend status in
+    if not (is_prefix got want) then (Some ("messages that were not sent or out of order: " ^ what), None)
+    else if damage = "none" then
+      (if got = want && hend = "eof" && status = "200" then (None, None) else (Some ("an intact stream was not delivered completely: " ^ what), None))
+    else if hend = "eof" then (Some ("a body the client did not complete ended like a complete one: " ^ what), None)
+    else if status = "200" then (Some ("a damaged body was answered 200: " ^ what), None)
+    else (None, None)
+  | _ -> (Some "unparsable C06Z case", None)
+let () = Evalreg.register "C06" run; Evalreg.register "C06Z" run_z
